@@ -189,6 +189,7 @@ func Main(t *testing.T, property string, cases []Case, params map[string]any) {
 
 	guardDone := false
 	sampleEvery := 1
+	perKey := map[string]int{}
 	for idx, c := range cases {
 		if idx%env.NShards != env.Shard || idx < env.From {
 			continue
@@ -251,10 +252,14 @@ func Main(t *testing.T, property string, cases []Case, params map[string]any) {
 				}
 			}
 			if same {
-				if len(res.Violations) < 200 {
+				// keep at most 25 violation texts per cause key (so that a new cause is never crowded out
+				// by a known one) — the totals are in the counters
+				perKey[o.Key]++
+				if perKey[o.Key] <= 25 && len(res.Violations) < 20000 {
 					res.Violations = append(res.Violations, Violation{Case: c.ID, Text: o.Violation, Key: o.Key})
 				}
 				res.Counters["violations_total"]++
+				res.Counters["violation_key:"+o.Key]++
 			} else {
 				res.Nondet = append(res.Nondet, c.ID+": "+o.Violation)
 			}
